@@ -263,6 +263,66 @@ def check_container(rep, prog):
         raise facts.AnalysisBroken('R-container found only %d container sites' % n)
 
 
+
+def check_publish(rep, repo):
+    """the reference that keeps an object alive for a message to another thread exists before the message is visible"""
+    from rules import c06
+    rep.rule('R-publish', 'in the transfer / queue units: a function that both pushes a message on a queue read by another thread (uqueue_push) and takes a reference on '
+             'the object the message is about (X_use_urefcount_real, X_use) takes the reference first on every path - once the message is visible the other thread '
+             'may process it and drop what it believes to be the message\'s reference, running the destructor before the acquisition')
+    prog = facts.load_program(c06.UNITS, repo=repo)
+    n = 0
+    for uname, u in sorted(prog.units.items()):
+        for fn in sorted(u.funcs.values(), key=lambda f: f.name):
+            if not fn.blocks or not fn.inmain:
+                continue
+            ev = pr.Events(fn)
+            push = pr.m_call(r'uqueue_push')
+            use = pr.m_call(r'\w+_use_urefcount_real|\w+_use')
+            if not (ev.find(push) and ev.find(use)):
+                continue
+            n += 1
+            bad = pr.never_after(ev, push, use)
+            rep.add('R-publish', fn.name, VIOLATED if bad else HOLDS, fn.loc if not bad else '%s:%s' % (fn.file, bad[0][1][2].get('l')),
+                    **({'what': '%s takes its reference (%s, line %s) after the message has been pushed (line %s)' % (
+                        fn.name, bad[0][1][2].get('fn'), bad[0][1][2].get('l'), bad[0][0][2].get('l'))} if bad else {}))
+    if n < 2:
+        raise facts.AnalysisBroken('R-publish found only %d publishing functions' % n)
+
+
+
+POOL_UNPINNED_OK = {'upump_blocker_pool': 'a blocker only exists while its pump does, and the pump (allocated from upump_pool, which pins) keeps the manager alive'}
+
+
+def check_pool_pin(rep, prog):
+    """objects handed out by a manager's pool keep the manager alive: upool_init is given the manager's refcount"""
+    rep.rule('R-pool-pin', 'every upool_init of a manager passes the manager\'s refcount (an expression ending in ->refcount / .refcount), so that each object taken from '
+             'the pool pins the manager until it is given back - in particular the shared-area descriptors of the buffer managers, which can outlive every buffer '
+             'of their own manager once another manager\'s buffer points at the area; one listed exception')
+    n = 0
+    for uname, u in sorted(prog.units.items()):
+        for fn in sorted(u.funcs.values(), key=lambda f: f.name):
+            if not fn.blocks:
+                continue
+            for _, _, x in fn.nodes():
+                if x.get('k') != 'call' or x.get('fn') != 'upool_init' or len(x.get('args', [])) < 2:
+                    continue
+                n += 1
+                pool = next((y.get('f') for y in walk(fn.resolve(x['args'][0])) if isinstance(y, dict) and y.get('k') == 'mem'), '?')
+                a = strip_all_casts(fn.resolve(x['args'][1]))
+                pinned = isinstance(a, dict) and a.get('k') == 'mem' and a.get('f') == 'refcount'
+                inst = '%s:%s' % (fn.name, pool)
+                if pinned:
+                    rep.add('R-pool-pin', inst, HOLDS, '%s:%s' % (fn.file, x.get('l')))
+                elif pool in POOL_UNPINNED_OK:
+                    rep.add('R-pool-pin', inst, OOS, '%s:%s' % (fn.file, x.get('l')), why='listed: ' + POOL_UNPINNED_OK[pool])
+                else:
+                    rep.add('R-pool-pin', inst, VIOLATED, '%s:%s' % (fn.file, x.get('l')),
+                            what='%s initialises pool %s without the manager\'s refcount: objects taken from it do not keep the manager (and the allocator it holds) alive' % (fn.name, pool))
+    if n < 6:
+        raise facts.AnalysisBroken('R-pool-pin found only %d upool_init calls' % n)
+
+
 def run(tier='quick', repo=None):
     repo = repo or facts.REPO
     rep = Report(PROP, tier)
@@ -376,6 +436,8 @@ def run(tier='quick', repo=None):
                 what='object of type %s accessed directly (not through uatomic_*)' % n.get('t'))
     rep.add('R-atomic', 'all-units', HOLDS if not bad else VIOLATED, None, occurrences=nocc, **({} if not bad else {'what': '%d direct accesses' % len(bad)}))
     check_container(rep, prog)
+    check_pool_pin(rep, prog)
+    check_publish(rep, repo)
     check_race(rep, repo, tier)
     rep.assumptions = ['the HAVE_ATOMIC_OPS branch of uatomic.h is the one compiled (config.h of the tree)',
                        'callers respect "a release matches an acquisition made while holding a reference" (not decided)']
